@@ -243,9 +243,10 @@ theorem C23_try_lowering_break {P : Program} {pos ra fa : Nat} {ov : Bool} (S0 a
   have sret := C23_return_restores P (pos + 5) S0 args X' r' fr rest heap' out h5 hn
   exact ((hp.snoc scall).trans hfr).snoc sret
 
-/-- **`e!`**: the lowering is a single `Call 1 unwrap`.  If the callee comes back with the payload, it
-    replaces the argument on the caller's stack; a `panic` inside it stops the program with a Panic error
-    (`C23_prelude_unwrap_*` say which of the two happens). -/
+/-- **`e!`**: the lowering is a single `Call 1 unwrap`.  IF the callee, started in its own frame on the argument,
+    comes back (hypothesis `hret`) with the payload in place of the argument, then so does the caller's `Call`.  The
+    failing case is not part of this statement: `C23_prelude_unwrap_*` say when the prelude function panics and
+    `C23_panic_instr` what the `Panic` instruction does. -/
 theorem C23_unwrap_lowering {P : Program} {pc ua : Nat} (hcall : P[pc]? = some (.call 1 ua))
     (S : List VM.Val) (v payload : VM.Val) (base : Nat) (frames : List Frame) (heap heap' : List VM.Obj)
     (out : List String)
